@@ -787,6 +787,9 @@ def v_tree(p):
         elif isinstance(part, KeysV):
           lens.append(part.num)
           fns.append(lambda q, part=part: KeyV(SPLIT(part.key, part.num, q)))
+        elif isinstance(part, Ref) and isinstance(part.cell(ctx), PyListCell) and len(part.cell(ctx).items) == 1:
+          lens.append(z3.IntVal(1))
+          fns.append(lambda q, it=part.cell(ctx).items[0]: it)    # a one-element python list: q can only be 0
         else:
           raise Unsupported('zip of something else')
       ctx.oblige('zip.lengths', z3.And(*[l == lens[0] for l in lens[1:]]), kind='pre',
@@ -803,6 +806,13 @@ def v_tree(p):
   def unflatten(ctx, tdef, lst):
     return TreeV(tdef, lst.cell(ctx).seq)
 
+  IS_LEAF_DEF = z3.Function('treedef_is_leaf', TD, z3.BoolSort())
+
+  def is_leaf_def(ctx, tdef):
+    # library contract: the treedef of a bare leaf (an array that is its own pytree) has exactly one leaf
+    ctx.assume(z3.Implies(IS_LEAF_DEF(tdef), n == 1))
+    return IS_LEAF_DEF(tdef)
+
   def split(ctx, key, num):
     return KeysV(key.term, to_z3(num))
 
@@ -812,7 +822,8 @@ def v_tree(p):
   def inv_contract(ctx, leaf, key, shape):
     return IdV(INV(leaf.term, key.term, shape.term))
   jax = Module('jax', {'tree_util': Module('jax.tree_util', {'tree_flatten': Handler(flatten, 'tree_flatten'),
-                                                               'tree_unflatten': Handler(unflatten, 'tree_unflatten')}),
+                                                               'tree_unflatten': Handler(unflatten, 'tree_unflatten'),
+                                                               'treedef_is_leaf': Handler(is_leaf_def, 'treedef_is_leaf')}),
                        'random': Module('jax.random', {'split': Handler(split, 'jax.random.split')})})
   eng = Engine({'jax': jax, 'zip': Handler(lambda ctx, *parts: ZipV(parts), 'zip'),
                 'structured_rotation': Handler(rot_contract, 'structured_rotation'),
